@@ -79,6 +79,13 @@ theorem shouldExit_malformed (e : GoErr) (h : e.isMalformed = true) :
   simp [shouldExit, h, Gen.rob_reader_ErrorHandlingRecover, Gen.rob_reader_ErrorHandlingReport,
     Gen.rob_reader_ErrorHandlingStop]
 
+
+/-- `open_fault` at the catalog step of `NewReader`/`MakeReader`: a non-malformed error of the
+    catalog decode is returned as it is, in every mode, with or without `/Pages` -/
+theorem catalog_fault (seq : Bool) (mode : Nat) (e : GoErr) (h : e.isMalformed = false) (hasPages : Bool) :
+    catalogStep seq mode (some e) hasPages = (true, some e, false) := by
+  simp [catalogStep, shouldExit, h]
+
 example : shouldExit 0 (some (.wrapf "document catalog" (.wrapf "object 1 0 R" (.sentinel 2)))) = (true, none) := by
   decide
 
@@ -219,28 +226,20 @@ example :
 only call k", short reads with error, chunked readers are all instances: `faultySrc_faultyOver`).
 `view d s` is the remaining input the parser would see without faults. -/
 
-/-- **scanner_fault, full statement**: every entry point returns the fault-free result or `e0`.
-    For `PeekN` (hence `SkipString`) this is **false** on the current code: finding ROB-1. -/
-def ScannerFaultPeekN : Prop :=
-  ∀ (d : Bytes) (e0 : Err) (src : Source), FaultyOver d e0 src → ∀ (s : SB), Coh d e0 s →
-    ∀ n, n ≤ bufSize →
-      ((peekN src n s).2.2 = none ∧ (peekN src n s).2.1 = (view d s).take n) ∨ (peekN src n s).2.2 = some e0
+/-- regression witness of the former finding ROB-1 (fixed as D33): the input `endobj`, the first
+    `Read` delivers `end` together with an error.  `PeekN(6)` used to answer `end` with a nil error;
+    it now reports the reader's error. -/
+example : (peekN (faultySrc [101, 110, 100, 111, 98, 106] 0 (.onlyK 0 3) .io) 6 (SB.init 0)).2 =
+    ([101, 110, 100], some .io) := by decide
 
-/-- ROB-1 witness: the input `endobj`, the first `Read` delivers `end` together with an error:
-    `PeekN(6)` answers `end` with a nil error (the caller takes this for the end of the file). -/
-theorem scannerFaultPeekN_false : ¬ ScannerFaultPeekN := by
-  intro H
-  have := H [101, 110, 100, 111, 98, 106] .io (faultySrc [101, 110, 100, 111, 98, 106] 0 (.onlyK 0 3) .io)
-    (faultySrc_faultyOver _ 0 _ .io (by decide)) (SB.init 0) (coh_init _ _ 0) 6 (by decide)
-  revert this
-  decide
-
-/-- **scanner_fault (what holds, for every failing reader)**: `ReadByte`, `ScanBytes`,
-    `SkipWhiteSpace` return the fault-free result (the function of `Model/Scan.lean` on the whole
-    remaining input) or the reader's error `e0`, and `ScanBytes` terminates; `PeekN` does so too
-    except in the single call whose `refill` latched the error after bytes had been added, where
-    it returns a non-empty proper prefix of the fault-free window with a nil error. -/
-theorem scanner_fault_partial {d : Bytes} {e0 : Err} {src : Source} (h : FaultyOver d e0 src) (s : SB)
+/-- **scanner_fault** (full strength).  For every reader that serves the bytes `d` and may fail
+    with `e0` at any call — from call k on, only at call k, with any number of bytes delivered
+    together with the error, with any chunking — every entry point of the scanner's buffer returns
+    the fault-free result (the function of `Model/Scan.lean` on the whole remaining input) or the
+    reader's error `e0`: `ReadByte`, `ScanBytes` (any acceptor; it also terminates),
+    `SkipWhiteSpace`, `PeekN` and `SkipString`.  (Before the fix D33 the `PeekN`/`SkipString`
+    clauses were false: former finding ROB-1.) -/
+theorem scanner_fault {d : Bytes} {e0 : Err} {src : Source} (h : FaultyOver d e0 src) (s : SB)
     (c : Coh d e0 s) :
     -- ReadByte
     ((((readByte src s).2, view d (readByte src s).1) = readByteSpec (view d s)) ∨ (readByte src s).2 = .error e0) ∧
@@ -263,11 +262,15 @@ theorem scanner_fault_partial {d : Bytes} {e0 : Err} {src : Source} (h : FaultyO
      (skipWhiteSpace src (scanBytesFuel (d.length - s.srcOff)) s).2 = some e0) ∧
     -- PeekN
     (∀ n, n ≤ bufSize →
-      ((peekN src n s).2.2 = none ∧ (peekN src n s).2.1 = (view d s).take n) ∨
-      (peekN src n s).2.2 = some e0 ∨
-      ((peekN src n s).2.2 = none ∧ s.err = none ∧ (peekN src n s).1.err = some e0 ∧
-        0 < (peekN src n s).2.1.length ∧ (peekN src n s).2.1.length < n ∧ (peekN src n s).2.1 <+: view d s)) := by
-  refine ⟨?_, ?_, ?_, ?_⟩
+      ((peekN src n s).2.2 = none ∧ (peekN src n s).2.1 = (view d s).take n) ∨ (peekN src n s).2.2 = some e0) ∧
+    -- SkipString
+    (∀ pat : Bytes, pat.length ≤ bufSize →
+      ((skipString src pat s).2 = none ∧ (view d s).take pat.length = pat ∧
+        view d (skipString src pat s).1 = (view d s).drop pat.length) ∨
+      ((skipString src pat s).2 = some .malformed ∧ (view d s).take pat.length ≠ pat ∧
+        view d (skipString src pat s).1 = view d s) ∨
+      (skipString src pat s).2 = some e0) := by
+  refine ⟨?_, ?_, ?_, ?_, ?_⟩
   · rcases (readByte_spec h s c).2 with h1 | ⟨h1, _⟩
     · exact Or.inl h1
     · exact Or.inr h1
@@ -282,23 +285,14 @@ theorem scanner_fault_partial {d : Bytes} {e0 : Err} {src : Source} (h : FaultyO
     · exact Or.inl ⟨b, a⟩
     · exact Or.inr a
   · intro n hn
-    rcases (peekN_spec h n hn s c).out with h1 | ⟨h1, _⟩ | h1
+    rcases (peekN_spec h n hn s c).out with h1 | ⟨h1, _⟩
+    · exact Or.inl h1
+    · exact Or.inr h1
+  · intro pat hn
+    rcases (skipString_spec h pat hn s c).2 with h1 | h1 | ⟨h1, _⟩
     · exact Or.inl h1
     · exact Or.inr (Or.inl h1)
     · exact Or.inr (Or.inr h1)
-
-/-- `PeekN` under a failing reader is exact whenever no error is latched *silently* in this very
-    call (in particular in every call after the one in which the reader failed) -/
-theorem peekN_fault_clean {d : Bytes} {e0 : Err} {src : Source} (h : FaultyOver d e0 src) (s : SB)
-    (c : Coh d e0 s) (n : Nat) (hn : n ≤ bufSize)
-    (hclean : s.err ≠ none ∨ (peekN src n s).1.err = none) :
-    ((peekN src n s).2.2 = none ∧ (peekN src n s).2.1 = (view d s).take n) ∨ (peekN src n s).2.2 = some e0 := by
-  rcases (peekN_spec h n hn s c).out with h1 | ⟨h1, _⟩ | ⟨_, h2, h3, _⟩
-  · exact Or.inl h1
-  · exact Or.inr h1
-  · rcases hclean with hc | hc
-    · exact absurd h2 hc
-    · rw [hc] at h3; cases h3
 
 -- non-vacuity: the reader fails from the third call on (7 bytes per call): ReadByte still hands
 -- out the 14 buffered bytes one by one, then reports the reader's error, never EOF
@@ -310,13 +304,11 @@ example :
      | .ok 65, .error .io => true
      | _, _ => false) = true := by decide +kernel
 
-/-! ## over an `io.ReaderAt` that fails cleanly, `scanner_fault` holds in full
+/-! ## `io.SectionReader` over an `io.ReaderAt` is such a reader
 
-This is the situation of `Reader.scannerFrom` (an `io.SectionReader` over the file's `ReaderAt`)
-when the `ReaderAt` keeps its contract — a call delivers all the bytes asked for, or an error — and
-a failing call delivers nothing.  Then no `io.ReadFull` ends with *data and* an error, `refill`
-never latches silently, and ROB-1 cannot occur.  (ROB-1 needs a short read that carries an error, or
-a reader that hands out the data in several pieces.) -/
+`Reader.scannerFrom` reads through an `io.SectionReader` over the file's `ReaderAt`; if the
+`ReaderAt` keeps its contract (a call delivers all the bytes asked for, or an error) it satisfies
+`FaultyOver`, so `scanner_fault` applies to the scanners the `Reader` creates. -/
 
 /-- the `ReaderAt` serves `d`; every call inside the data delivers everything asked for, or fails
     with `e0` and no data -/
@@ -363,119 +355,6 @@ theorem sectionSrc_faultyOver {d : Bytes} {e0 : Err} {ra : ReaderAtFn} (h : Clea
     · simp at hx; exact Or.inl hx.symm
     · cases hx
     · simp at hx; exact Or.inr hx.symm
-
-/-- at or beyond the end of the data `io.ReadFull` over the section reader reports no fault -/
-theorem readFull_section_atEnd {d : Bytes} {e0 : Err} {ra : ReaderAtFn} (h : CleanReaderAt d e0 ra) :
-    ∀ fuel calls off want acc, off ≥ d.length →
-      (readFull (sectionSrc ra d.length) fuel calls off want acc).err = none ∨
-      (readFull (sectionSrc ra d.length) fuel calls off want acc).err = some .eof := by
-  intro fuel calls off want acc ho
-  cases fuel with
-  | zero => left; rfl
-  | succ fuel =>
-    unfold readFull
-    by_cases hw : want = 0
-    · simp [hw]
-    · simp only [hw, if_false]
-      have : sectionSrc ra d.length calls off want = ([], some .eof) := by simp [sectionSrc, ho]
-      rw [this]
-      simp only [List.take_nil, List.length_nil]
-      have : ¬ (0 ≥ want) := by omega
-      simp [this]
-
-/-- **no `io.ReadFull` ends with data *and* a fault**: if it reports a fault, nothing was added -/
-theorem readFull_section_clean {d : Bytes} {e0 : Err} {ra : ReaderAtFn} (h : CleanReaderAt d e0 ra) (he : e0 ≠ .eof) :
-    ∀ fuel calls off want acc x,
-      (readFull (sectionSrc ra d.length) fuel calls off want acc).err = some x → x ≠ .eof →
-      (readFull (sectionSrc ra d.length) fuel calls off want acc).data = acc := by
-  intro fuel calls off want acc x hx hne
-  cases fuel with
-  | zero => simp [readFull] at hx
-  | succ fuel =>
-    unfold readFull at hx ⊢
-    by_cases hw : want = 0
-    · simp [hw] at hx
-    · simp only [hw, if_false] at hx ⊢
-      rcases sectionSrc_cases h calls off want with ⟨_, hk⟩ | ⟨ho, hk⟩ | ⟨_, hk⟩
-      · rw [hk] at hx ⊢
-        simp only [List.take_nil, List.length_nil] at hx ⊢
-        have : ¬ (0 ≥ want) := by omega
-        simp only [this, if_false] at hx ⊢
-        simp
-      · rw [hk] at hx
-        simp only [] at hx
-        -- a full clamped read: either the window is full now, or the data ended here
-        exfalso
-        have hlen : ((d.drop off).take (min want (d.length - off))).length = min want (d.length - off) := by
-          simp
-        by_cases hfull : want ≤ d.length - off
-        · -- everything asked for was delivered: the recursion stops with no error
-          have hm : min want (d.length - off) = want := by omega
-          simp only [List.take_take, hm, Nat.min_self] at hx
-          have hl2 : ((d.drop off).take want).length = want := by simp; omega
-          rw [hl2] at hx
-          simp only [Nat.sub_self] at hx
-          cases fuel with
-          | zero => simp [readFull] at hx
-          | succ f => simp [readFull] at hx
-        · -- the data ended: the next `Read` is at the limit and answers EOF
-          have hm : min want (d.length - off) = d.length - off := by omega
-          simp only [List.take_take, hm] at hx
-          have hl2 : ((d.drop off).take (d.length - off)).length = d.length - off := by simp
-          rw [hl2] at hx
-          rcases readFull_section_atEnd h fuel (calls + 1) (off + (d.length - off)) (want - (d.length - off))
-            (acc ++ (d.drop off).take (d.length - off)) (by omega) with hr | hr
-          · rw [hr] at hx; cases hx
-          · rw [hr] at hx; cases hx; exact hne rfl
-      · rw [hk] at hx ⊢
-        simp only [List.take_nil, List.length_nil] at hx ⊢
-        have : ¬ (0 ≥ want) := by omega
-        simp only [this, if_false] at hx ⊢
-        simp
-
-/-- **scanner_fault for `PeekN`, in full, over a `ReaderAt` that fails cleanly**: the fault-free
-    window or the `ReaderAt`'s error — never a shortened window with a nil error -/
-theorem scanner_fault_peekN_readerAt {d : Bytes} {e0 : Err} {ra : ReaderAtFn} (h : CleanReaderAt d e0 ra)
-    (he : e0 ≠ .eof) (s : SB) (c : Coh d e0 s) (n : Nat) (hn : n ≤ bufSize) :
-    ((peekN (sectionSrc ra d.length) n s).2.2 = none ∧ (peekN (sectionSrc ra d.length) n s).2.1 = (view d s).take n) ∨
-    (peekN (sectionSrc ra d.length) n s).2.2 = some e0 := by
-  have F := sectionSrc_faultyOver h he
-  rcases (peekN_spec F n hn s c).out with h1 | ⟨h1, _⟩ | ⟨h1, hs, hl, hpos, hlt, _⟩
-  · exact Or.inl h1
-  · exact Or.inr h1
-  · -- the silent latch is impossible: reproduce the refill of this call
-    exfalso
-    have hsl : (refill (sectionSrc ra d.length) s).1.err = some e0 → (refill (sectionSrc ra d.length) s).2 = some e0 := by
-      rw [refill_eq _ s hs]
-      have hclean := readFull_section_clean h he (bufSize - (s.buf.drop s.pos).length + 1) s.calls s.srcOff
-        (bufSize - (s.buf.drop s.pos).length) []
-      generalize readFull (sectionSrc ra d.length) (bufSize - (s.buf.drop s.pos).length + 1) s.calls s.srcOff
-        (bufSize - (s.buf.drop s.pos).length) [] = r at hclean
-      obtain ⟨rdata, rerr, rcalls, rhang⟩ := r
-      cases rerr with
-      | none => simp [refillWith]
-      | some x =>
-        by_cases hx : x = .eof
-        · subst hx; simp [refillWith]
-        · have hd : rdata = [] := hclean x rfl hx
-          subst hd
-          simp [refillWith, hx]
-    have hn' : ¬ (n > bufSize) := by omega
-    unfold peekN at h1 hl hlt
-    simp only [hn', if_false] at h1 hl hlt
-    by_cases hA : s.pos + n > s.buf.length
-    · simp only [hA, if_true] at h1 hl hlt
-      generalize refill (sectionSrc ra d.length) s = r at h1 hl hlt hsl
-      obtain ⟨s1, err⟩ := r
-      simp only [] at h1 hl hlt hsl
-      by_cases hB : s1.pos + n > s1.buf.length
-      · simp only [hB, if_true] at h1 hl
-        rw [hsl hl] at h1; cases h1
-      · simp only [hB, if_false] at hlt
-        simp at hlt
-        omega
-    · simp only [hA, if_false] at hl
-      rw [hs] at hl; cases hl
 
 -- non-vacuity: a ReaderAt whose third call fails is clean
 example (d : Bytes) : CleanReaderAt d .io (fun k off n => if k = 2 then ([], some .io) else ((d.drop off).take n, none)) := by
